@@ -117,6 +117,12 @@ impl F {
     pub fn is_nan(self) -> (r: bool) ensures !r { unimplemented!() }
     #[verifier::external_body]
     pub fn is_infinite(self) -> (r: bool) ensures !r { unimplemented!() }
+    /// neither zero, subnormal, infinite nor NaN: under Theory M (no subnormals, infinities, NaN) exactly "non-zero"
+    #[verifier::external_body]
+    pub fn is_normal(self) -> (r: bool) ensures r == (self@ != 0real) { unimplemented!() }
+    /// f64::clamp panics when lo > hi
+    #[verifier::external_body]
+    pub fn clamp(self, lo: F, hi: F) -> (r: F) requires lo@ <= hi@ ensures r@ == clamp_r(self@, lo@, hi@) { unimplemented!() }
     /// rounding functions: uninterpreted beyond being functions (no property relies on them)
     #[verifier::external_body]
     pub fn round(self) -> (r: F) { unimplemented!() }
